@@ -52,7 +52,14 @@ def cmd_check(args) -> int:
         extra = mod.post_batch(tier, seed, total) or {}
     direct = extra.pop("direct_violations", []) if isinstance(extra, dict) else []
     known, new = runner.triage(prop, total)
-    new.extend(direct)
+    kf = runner.known_findings(prop)
+    for d in direct:
+        k = runner.match_known(kf, d["signature"])
+        if k is not None:
+            known.setdefault(k, {"entry": kf[k], "count": 0})
+            known[k]["count"] += 1
+        else:
+            new.append(d)
     runner.write_evidence(prop, tier, seed, total, known, new, mod, extra=extra)
     print(f"[{prop}] runs={total['runs']} nontrivial={total['nontrivial']} distinct={len(total['digests'])} "
           f"wall={total['wall_s']:.1f}s violations_raw={len(total['violations'])} new={len(new)} known={len(known)}"
